@@ -17,6 +17,7 @@ package main
 import (
 	"fmt"
 	"sort"
+	"strconv"
 	"strings"
 	"sync"
 	"time"
@@ -54,9 +55,44 @@ type config struct {
 	User  string `json:"user"`
 	KS    bool   `json:"keep_session"`
 	Depth int    `json:"depth,omitempty"` // 0: the tier's default bound
+	// Faults > 0: statement events may carry one injected backend fault ("OP!pool#n=kind", at
+	// most Faults per history): taking / setting up the connection or the statement itself
+	// fails (err = error answer, closed = the connection breaks).
+	Faults int `json:"faults,omitempty"`
 }
 
-func (c config) String() string { return fmt.Sprintf("user=%s,ks=%v", c.User, c.KS) }
+func (c config) String() string {
+	if c.Faults > 0 {
+		return fmt.Sprintf("user=%s,ks=%v,faults=%d", c.User, c.KS, c.Faults)
+	}
+	return fmt.Sprintf("user=%s,ks=%v", c.User, c.KS)
+}
+
+// faultOps are the commands that may carry a fault; multi-slice statements only where at most
+// one slice needs a new connection (otherwise the outcome depends on Go's map iteration
+// order in getBackendConns - that universe belongs to C19, which pins the order).
+var faultOps = []string{"R0", "W0", "FU", "W1", "RS", "WS"}
+
+func splitEvent(ev string) (op string, f *sessrig.Fault) {
+	i := strings.Index(ev, "!")
+	if i < 0 {
+		return ev, nil
+	}
+	rest := ev[i+1:]
+	h, q := strings.Index(rest, "#"), strings.Index(rest, "=")
+	n, _ := strconv.Atoi(rest[h+1 : q])
+	return ev[:i], &sessrig.Fault{Pool: rest[:h], Nth: n, Kind: rest[q+1:]}
+}
+
+func nFaults(h []string) int {
+	n := 0
+	for _, e := range h {
+		if strings.Contains(e, "!") {
+			n++
+		}
+	}
+	return n
+}
 
 type kase struct {
 	Cfg  config   `json:"cfg"`
@@ -92,6 +128,11 @@ type monitor struct {
 	// It is reported as a feature so that the consequences of that one mechanism can be told
 	// apart from any other violation.
 	after  string
+	// broken: a connection that belongs to the open transaction broke (fault kind closed after
+	// its set-up succeeded). The backend transaction is gone and cannot stay on "one and the
+	// same connection"; until the client's COMMIT/ROLLBACK the monitor then only demands what
+	// still makes sense: no replica, no released / foreign lease (ledger audit).
+	broken bool
 	leases *sessrig.Leases
 }
 
@@ -117,9 +158,31 @@ func phaseOf(m *monitor) string {
 // step evaluates one command of session A. entries = ledger entries of this step.
 func (m *monitor) step(op string, resp sessrig.Resp, entries []sessrig.Entry, heldByA map[int]bool) *violation {
 	phase := phaseOf(m)
+	// what failed in this step (injected fault, or a call on a connection that broke earlier)
+	failedOn := map[int]string{} // lease -> first failing op
+	gotHere := map[int]bool{}
+	anyFail := false
+	for _, e := range entries {
+		if e.Actor != "A" {
+			continue
+		}
+		if e.Op == "get" && e.Res == "ok" {
+			gotHere[e.Lease] = true
+		}
+		if e.Res == "err" || e.Res == "closed" || e.Res == "on_closed" {
+			anyFail = true
+			if _, ok := failedOn[e.Lease]; !ok && e.Lease != 0 {
+				failedOn[e.Lease] = e.Op + ":" + e.Res
+			}
+		}
+	}
+	freshSetupFailed := func(l int) bool { // taken in this step and its set-up (BEGIN / SET autocommit=0) failed
+		f := failedOn[l]
+		return gotHere[l] && (strings.HasPrefix(f, "begin:") || strings.HasPrefix(f, "set_autocommit:"))
+	}
 	mk := func(kind, format string, a ...interface{}) *violation {
 		return &violation{msg: fmt.Sprintf("%s at %s (%s, after=%s): ", kind, op, phase, m.after) + fmt.Sprintf(format, a...),
-			feat: map[string]string{"kind": kind, "event": op, "phase": phase, "ks": fmt.Sprint(m.ks), "after": m.after}}
+			feat: map[string]string{"kind": kind, "event": op, "phase": phase, "ks": fmt.Sprint(m.ks), "after": m.after, "broken": fmt.Sprint(m.broken)}}
 	}
 	wasOpen := m.open()
 	if op == "AC1" && m.ac && m.explicit {
@@ -140,6 +203,15 @@ func (m *monitor) step(op string, resp sessrig.Resp, entries []sessrig.Entry, he
 	inTx := wasOpen
 	if op == "BEGIN" || op == "START" || op == "AC0" {
 		inTx = true
+	}
+	// does a connection of the transaction break in this step?
+	brokeNow := false
+	if inTx {
+		for l, f := range failedOn {
+			if (strings.HasSuffix(f, ":closed") || strings.HasSuffix(f, ":on_closed")) && !freshSetupFailed(l) {
+				brokeNow = true
+			}
+		}
 	}
 	// per connection, deterministic order
 	by := map[int][]sessrig.Entry{}
@@ -175,6 +247,17 @@ func (m *monitor) step(op string, resp sessrig.Resp, entries []sessrig.Entry, he
 				if !inEpoch {
 					continue
 				}
+				if freshSetupFailed(e.Lease) {
+					// never became part of the transaction: the proxy has to give it back
+					delete(m.epoch, e.Slice)
+					continue
+				}
+				if m.broken || strings.HasSuffix(failedOn[e.Lease], ":closed") || strings.HasSuffix(failedOn[e.Lease], ":on_closed") {
+					continue // a broken connection of the transaction is discarded
+				}
+				if brokeNow {
+					continue // the transaction lost a connection in this step: the proxy gives the others up too
+				}
 				if ending == "" {
 					return mk("released_in_tx", "the connection (%s) of the open transaction was given back to the pool before COMMIT/ROLLBACK", e.Pool)
 				}
@@ -194,6 +277,9 @@ func (m *monitor) step(op string, resp sessrig.Resp, entries []sessrig.Entry, he
 					v.feat["role"] = e.Role
 					return v
 				}
+				if m.broken || brokeNow {
+					continue
+				}
 				if l, ok := m.epoch[e.Slice]; ok && l != e.Lease {
 					return mk("second_connection", "%s for %s ran on another connection than the one the transaction already uses for that slice (%s)", e.Op, e.Slice, e.Pool)
 				}
@@ -209,11 +295,11 @@ func (m *monitor) step(op string, resp sessrig.Resp, entries []sessrig.Entry, he
 			}
 		}
 	}
-	if resp.Kind == "err" {
-		// fault-free universe: the proxy has no reason to refuse any command of the alphabet
+	if resp.Kind == "err" && !anyFail {
+		// nothing failed on the backends: the proxy has no reason to refuse a command of the alphabet
 		return mk("unexpected_error", "client got error %d %s", resp.ErrCode, resp.ErrMsg)
 	}
-	if ending != "" {
+	if ending != "" && !(m.broken || brokeNow) {
 		need := map[int]bool{}
 		for _, l := range m.epoch {
 			need[l] = true
@@ -245,6 +331,10 @@ func (m *monitor) step(op string, resp sessrig.Resp, entries []sessrig.Entry, he
 			return mk("end_call_extra", "%s sent to %d connection(s) that are not part of the transaction", ending, extra)
 		}
 	}
+	if brokeNow {
+		m.broken = true
+		m.epoch = map[string]int{}
+	}
 	// advance the client's view
 	switch op {
 	case "BEGIN", "START":
@@ -253,6 +343,7 @@ func (m *monitor) step(op string, resp sessrig.Resp, entries []sessrig.Entry, he
 		m.explicit = false
 		m.epoch = map[string]int{}
 		m.after = ""
+		m.broken = false
 	case "AC0":
 		m.ac = false
 	case "AC1":
@@ -260,12 +351,14 @@ func (m *monitor) step(op string, resp sessrig.Resp, entries []sessrig.Entry, he
 			m.explicit = false
 			m.epoch = map[string]int{}
 			m.after = ""
+			m.broken = false
 		}
 		m.ac = true
 	}
 	if !m.open() {
 		m.epoch = map[string]int{}
 		m.after = ""
+		m.broken = false
 	}
 	return nil
 }
@@ -283,6 +376,7 @@ type outcome struct {
 	trace  []stepTrace
 	facts  []string
 	ledger []string
+	calls  map[string]int // faultable backend calls per pool of the last command
 }
 
 func replay(cfg config, hist []string, wantTrace bool) outcome {
@@ -297,7 +391,8 @@ func replay(cfg config, hist []string, wantTrace bool) outcome {
 	var out outcome
 	everA := map[int]bool{} // connection ids ever leased by A
 	last := ""
-	for i, op := range hist {
+	for i, evs := range hist {
+		op, fault := splitEvent(evs)
 		var resp sessrig.Resp
 		actor := "A"
 		if strings.HasPrefix(op, "B:") {
@@ -306,8 +401,16 @@ func replay(cfg config, hist []string, wantTrace bool) outcome {
 			}
 			actor = "B"
 			resp = b.Query(sqlOf[op])
+		} else if fault != nil {
+			resp = a.Query(sqlOf[op], *fault)
+			if len(resp.Fired) == 0 {
+				ev.Fatalf("fault %s of event %d (%s) did not fire", fault, i, evs)
+			}
 		} else {
 			resp = a.Query(sqlOf[op])
+		}
+		if i == len(hist)-1 {
+			out.calls = resp.Calls
 		}
 		led := w.Ledger()
 		step := w.Step()
@@ -318,7 +421,7 @@ func replay(cfg config, hist []string, wantTrace bool) outcome {
 			}
 		}
 		if wantTrace {
-			out.trace = append(out.trace, stepTrace{Op: op, Resp: resp.Kind, Led: sessrig.Describe(entries)})
+			out.trace = append(out.trace, stepTrace{Op: evs, Resp: resp.Kind, Led: sessrig.Describe(entries)})
 		}
 		// ledger-level contract
 		if br := m.leases.Feed(led); len(br) > 0 {
@@ -371,7 +474,7 @@ func replay(cfg config, hist []string, wantTrace bool) outcome {
 		}
 	}
 	out.res.Outcome = last
-	out.res.Key = canon(w, a, m)
+	out.res.Key = fmt.Sprintf("faults=%d|", nFaults(hist)) + canon(w, a, m)
 	return out
 }
 
@@ -414,7 +517,7 @@ func canon(w *sessrig.World, a *sessrig.Sess, m *monitor) string {
 		return n
 	}
 	var sb strings.Builder
-	fmt.Fprintf(&sb, "ac=%v it=%v closed=%v sp=%v|mon ac=%v ex=%v after=%s|", st.AutoCommit, st.InTrans, st.Closed, st.Savepoints, m.ac, m.explicit, m.after)
+	fmt.Fprintf(&sb, "ac=%v it=%v closed=%v sp=%v|mon ac=%v ex=%v after=%s broken=%v|", st.AutoCommit, st.InTrans, st.Closed, st.Savepoints, m.ac, m.explicit, m.after, m.broken)
 	desc := func(ci sessrig.ConnInfo) string {
 		return fmt.Sprintf("%s/g%d/%s cl=%v ac=%v tx=%v", ci.Slice, ci.Gen, ci.Role, ci.Closed, ci.AutoCom, ci.InTx)
 	}
@@ -491,6 +594,12 @@ func main() {
 		{User: sessrig.UserStat, KS: false, Depth: r.Pick(5, 16)}, {User: sessrig.UserMon, KS: false, Depth: r.Pick(5, 16)},
 		{User: sessrig.UserStat, KS: true, Depth: r.Pick(6, 16)}, {User: sessrig.UserMon, KS: true, Depth: r.Pick(6, 16)},
 	}
+	// backend faults on statements (taking / setting up the transaction connection of a slice
+	// fails, or the statement breaks its connection), one per history
+	fd := r.Pick(5, 7)
+	cfgs = append(cfgs,
+		config{User: sessrig.UserRWS, KS: false, Depth: fd, Faults: 1}, config{User: sessrig.UserRW, KS: false, Depth: fd, Faults: 1},
+		config{User: sessrig.UserRWS, KS: true, Depth: fd, Faults: 1})
 	if r.Thorough() {
 		// the admin (pass-through) type uses the normal users' pool groups
 		cfgs = append(cfgs, config{User: sessrig.UserAdmin, KS: false}, config{User: sessrig.UserAdmin, KS: true})
@@ -512,7 +621,43 @@ func main() {
 			}(),
 			Workers:  16,
 			Stop:     r.TimeUp,
-			Enabled:  func(h []string) []string { return alphabet },
+			Enabled: func(h []string) []string {
+				if cfg.Faults == 0 || nFaults(h) >= cfg.Faults {
+					return alphabet
+				}
+				// exact fault positions: replay hist+op once without a fault and read the number
+				// of faultable backend calls per pool
+				out := append([]string(nil), alphabet...)
+				probes := make([]map[string]int, len(faultOps))
+				var wg sync.WaitGroup
+				for i, op := range faultOps {
+					wg.Add(1)
+					go func(i int, op string) {
+						defer wg.Done()
+						probes[i] = replay(cfg, append(append([]string(nil), h...), op), false).calls
+					}(i, op)
+				}
+				wg.Wait()
+				for i, op := range faultOps {
+					fresh := 0 // pools on which the command takes a new connection (get + set-up + statement)
+					for _, n := range probes[i] {
+						if n >= 3 {
+							fresh++
+						}
+					}
+					if fresh > 1 {
+						continue // order-dependent outcome, see faultOps
+					}
+					for _, pool := range sessrig.SortedKeys(probes[i]) {
+						for n := 0; n < probes[i][pool]; n++ {
+							for _, kind := range []string{"err", "closed"} {
+								out = append(out, fmt.Sprintf("%s!%s#%d=%s", op, pool, n, kind))
+							}
+						}
+					}
+				}
+				return out
+			},
 			Replay: func(h []string) xstate.Result {
 				o := replay(cfg, h, false)
 				mu.Lock()
